@@ -322,7 +322,9 @@ pub(crate) fn run_rx(tsi: u64, stream: &[(Vec<u8>, SystemTime)]) -> RxResult {
             }
         }
     }));
-    let objs = builder.objs.borrow().iter().map(|o| o.borrow().clone()).collect();
+    // by TOI: the creation order of objects inside one push depends on HashMap iteration in the receiver
+    let mut objs: Vec<Delivered> = builder.objs.borrow().iter().map(|o| o.borrow().clone()).collect();
+    objs.sort_by_key(|o| o.toi);
     let fdts = builder.fdts.borrow().clone();
     RxResult { objs, fdts, push_errors, panic: r.err() }
 }
@@ -522,8 +524,10 @@ pub(crate) fn exec(t: &[&str], o: &mut Oracle, st: &mut Stash) -> Option<String>
     };
     let decoded: Vec<Option<rd::LctFields>> = stream.iter().map(|(d, _)| rd::decode_lct(d)).collect();
     if decoded.iter().any(|f| f.is_none()) {
-        // a genuine sender packet the independent decoder rejects (the `pkt`/`parse` families own that oracle)
+        // a genuine sender packet the independent RFC decoder rejects
         st.note("rewidth:sender-packet-not-decodable", 1);
+        let bad = stream.iter().zip(&decoded).find(|(_, f)| f.is_none()).map(|((d, _), _)| hex(d)).unwrap_or_default();
+        o.fail("C06:rewidth-sender-packet-ne-rfc", &format!("{}: the independent decoder rejects the sender packet {}", p.desc(), crate::short(&bad)));
         return Some("ok".to_string());
     }
     let mut re: Stream = Vec::with_capacity(stream.len());
@@ -568,10 +572,18 @@ fn one_policy(g: &mut G, idx: usize, p: &SessP, pol: &str, first: bool, ops_per_
         let mut st = g.stash.borrow_mut();
         (std::mem::take(&mut st.stream), std::mem::take(&mut st.re), std::mem::take(&mut st.flags), st.produced, st.baseline_ok, st.changed, std::mem::take(&mut st.notes))
     };
+    let undecodable = notes.iter().any(|(k, _)| k == "rewidth:sender-packet-not-decodable"); // reported by the op itself
     for (k, n) in notes {
         *g.ctx.dist.entry(k).or_insert(0) += n;
     }
-    if !produced || obs != "ok" || re.len() != stream.len() || stream.is_empty() {
+    if !produced || obs != "ok" {
+        return;
+    }
+    if stream.is_empty() || (re.len() != stream.len() && !undecodable) {
+        g.ctx.oracle_fail("C06:harness-bug", &format!("session op left {} sender packets / {} re-encoded packets for {}", stream.len(), re.len(), p.desc()));
+        return;
+    }
+    if re.len() != stream.len() {
         return;
     }
     if first {
